@@ -66,6 +66,52 @@ class Models:
         self.I.record_edge(st, ("NODE", name), pos, st.inps[n], inner=(n != 0))
         return pos
 
+    def desc_tag(self, st, tag, n=0, end=False):
+        """One-word description of a cursor tag relative to the current path (for capture / argument effects)."""
+        if not isinstance(tag, tuple) or not tag:
+            return "?"
+        if end and tag == st.inps[n].pos:
+            return "here"
+        if tag == ("E",):
+            return "E"
+        if tag[0] == "P":
+            return str(tag[1])
+        node, res, pb = st.last
+        if node != "ENTRY" and tag == pb:
+            return "before"
+        if tag == st.inps[n].pos:
+            return "here"
+        if tag[0] == "S":
+            return "after(%s)" % (str(tag[1][0]).replace(" ", ""),)
+        if tag[0] == "T":
+            return "read"
+        if tag[0] == "X":
+            return "poisoned"
+        return "?"
+
+    def cursor_tags(self, fr, v, depth=0):
+        """Cursor tags held (transitively) by an abstract value."""
+        v = self.deref_val(fr, v)
+        out = []
+        if isinstance(v, tuple) and v:
+            if v[0] in ("cursor", "ckpt"):
+                out.append(v[1])
+            elif v[0] == "struct" and depth < 3:
+                for _, x in v[1]:
+                    out += self.cursor_tags(fr, x, depth + 1)
+            elif v[0] == "enum" and depth < 3:
+                for x in v[3]:
+                    out += self.cursor_tags(fr, x, depth + 1)
+        return out
+
+    @staticmethod
+    def invalidate(st, value):
+        """A loop-variant value (token just read, iterator element) is produced afresh: facts established
+        about the previous value bound to the same symbolic term no longer hold."""
+        key = repr(term_of(value))
+        if any(key in repr(t) for t, _ in st.facts):
+            st.facts = frozenset((t, p) for t, p in st.facts if key not in repr(t))
+
     def after_node(self, st, name, result, pos_before):
         st.last = (name, result, pos_before)
         st.seg = ()
@@ -272,6 +318,7 @@ class Models:
                 tnt |= taint_of(self.deref_val(fr, v))
             st.ev("mode", name, line)
             self.I.mode_calls.append((fr.body, name, vals, line, fr.st))
+            self.harvest_closure(fr, name, vals, line)
             return [(st, ("out", tnt))]
         if trait == "private::Mode" and name == "choose":
             outs = []
@@ -295,10 +342,50 @@ class Models:
             pos = st.inps[n].pos if n is not None else ("?",)
             start = before[1] if isinstance(before, tuple) and before[0] in ("cursor", "ckpt") else ("?",)
             st.ev("capture", "MapExtra", start, pos, line)
+            st.ev("cap", "extra", self.desc_tag(st, start, n if n is not None else 0), self.desc_tag(st, pos, n if n is not None else 0, end=True))
             self.I.captures.append((fr.body, "MapExtra::new", start, pos, line, st))
             return [(st, ("mapextra", start, pos))]
 
         return self.std(fr, f, vals, argtys, dest_ty, line)
+
+    def harvest_closure(self, fr, name, vals, line):
+        """The closure handed to a Mode value method runs (in Emit) right here.  It is parse-state-pure
+        (rule MODE-PURE), so it is interpreted on a scratch copy of the state only to collect the span/slice
+        captures and cursor stashes it performs; those become effects of the current automaton edge."""
+        cl = None
+        for v in reversed(vals):
+            cv = self.deref_val(fr, v)
+            if isinstance(cv, tuple) and cv[0] == "closure":
+                cl = cv
+                break
+        if cl is None:
+            return
+        args = {"bind": [], "map": vals[:1], "combine": vals[:2], "combine_mut": vals[:2], "get_or": []}.get(name)
+        if args is None:
+            return
+        body = self.I.facts.by_key.get(cl[1])
+        if body is None:
+            return
+        nargs = body["arg_count"] - 1
+        args = list(args)[:nargs] + [TOP] * max(0, nargs - len(args))
+        scratch = fr.st.copy()
+        f2 = Frame(self.I, fr.body, fr.fid, scratch, fr.depth)
+        before = len(scratch.trace)
+        saved_v = len(self.I.violations)
+        saved_logs = (len(self.I.captures),)
+        try:
+            outs = f2.call_closure(cl, args, line) or []
+        except AnalysisError:
+            outs = []
+        # nothing the scratch run "violates" counts (MODE-PURE is decided separately)
+        del self.I.violations[saved_v:]
+        found = []
+        for s2, _ in outs:
+            for e in s2.trace[before:]:
+                if e[0] in ("cap", "stash") and e not in found:
+                    found.append(e)
+        for e in found:
+            fr.st.ev(*e)
 
     # ------------------------------------------------------------------ F1
     def f1_call(self, fr, f, vals, dest_ty, line):
@@ -385,6 +472,11 @@ class Models:
             ck = self.deref_val(fr, rest[1])
             lhs = rest[2]
         res = []
+        # which positions the operator is told about: the expression start (span of the fold) and its checkpoint
+        names = ["pre_expr"] if kind == "prefix" else ["pre_expr", "pre_op"]
+        for nm_, av in zip(names, rest[:len(names)]):
+            for tag in self.cursor_tags(fr, av)[:1]:
+                fr.st.ev("oparg", nm_, self.desc_tag(fr.st, tag, n, end=True))
         nname = "%s.op_%s:%s@%s" % (child, kind, self.mode_of(f), line)
         pb = self.node(fr, n, nname)
         ok = fr.st.copy()
@@ -454,6 +546,7 @@ class Models:
             some = st.copy()
             self.after_node(some, nname, "Some", pb)
             some.inps[n].pos = ("T", site)
+            self.invalidate(some, ("tok", site))
             some.ev("read", name, "Some", line)
             none = st.copy()
             self.after_node(none, nname, "None", pb)
@@ -478,6 +571,7 @@ class Models:
                 c = self.deref_val(fr, struct_get(c, "start"))
             start = c[1] if isinstance(c, tuple) and c[0] in ("cursor", "ckpt") else ("?", describe(c))
             st.ev("capture", name, start, i.pos, line)
+            st.ev("cap", name, self.desc_tag(st, start, n), "here")
             self.I.captures.append((fr.body, name, start, i.pos, line, st))
             return [(st, ("span", start, i.pos))]
         if name in ("slice", "slice_from", "span_from", "full_slice", "slice_trailing_inner"):
@@ -502,7 +596,18 @@ class Models:
             i.some = "S"
             span = vals[3] if len(vals) > 3 else TOP
             found = vals[2] if len(vals) > 2 else TOP
-            st.ev("add_alt", describe(found), span if isinstance(span, tuple) and span[0] == "span" else describe(span), i.pos, line)
+            fv = self.deref_val(fr, found)
+            fk = "?"
+            if isinstance(fv, tuple) and fv[0] == "enum" and fv[1] == "Option":
+                if fv[2] == "None":
+                    fk = "none"
+                elif fv[3] and isinstance(fv[3][0], tuple) and fv[3][0][0] == "tok":
+                    fk = "tok"
+            sv = self.deref_val(fr, span)
+            sp = "?"
+            if isinstance(sv, tuple) and sv[0] == "span":
+                sp = "%s..%s" % (self.desc_tag(st, sv[1], n), self.desc_tag(st, sv[2], n))
+            st.ev("add_alt", fk, sp, self.desc_tag(st, i.pos, n))
             self.I.alt_adds.append((fr.body, "add_alt", found, span, i.pos, line, st))
             return [(st, UNIT)]
         if name == "add_alt_err":
@@ -511,7 +616,19 @@ class Models:
             if has_token(err):
                 i.tok = True
             i.some = "S"
-            st.ev("add_alt_err", describe(at), describe(err), line)
+            ad = "?"
+            if isinstance(at, tuple) and at[0] == "cursor":
+                ad = self.desc_tag(st, at[1], n)
+            elif isinstance(at, tuple) and at[0] == "altpos":
+                ad = "own"
+            elif isinstance(at, tuple) and at[0] == "sym" and str(at[1]).endswith("'pos')"):
+                ad = "stored.pos"
+            ek = "?"
+            if isinstance(err, tuple) and err[0] == "alterr":
+                ek = "taken"
+            elif isinstance(err, tuple) and err[0] == "sym":
+                ek = "user" if ("usercall" in str(err[1]) or "usererr" in str(err[1])) else ("stored" if str(err[1]).endswith("'err')") else "?")
+            st.ev("add_alt_err", ad, ek)
             self.I.alt_adds.append((fr.body, "add_alt_err", at, err, i.pos, line, st))
             self.alt_pos_check(fr, at, err, line)
             return [(st, UNIT)]
@@ -833,6 +950,7 @@ class Models:
             s_some = st.copy()
             if isinstance(tgt, tuple) and tgt[0] == "ref":
                 Frame(self.I, fr.body, fr.fid, s_some, fr.depth).write_lv(tgt[1], ("iter", src, True))
+            self.invalidate(s_some, ("sym", ("elem", src)))
             outs.append((s_some, ("enum", "Option", "Some", (("sym", ("elem", src)),))))
             if not (nonempty and not advanced):
                 outs.append((st.copy(), ("enum", "Option", "None", ())))
@@ -876,6 +994,10 @@ class Models:
                 if self.I.spec.token_transparent(f):
                     return [(st, v)]
                 self.token_lost(fr, v, "moved into %s" % f["name"], f["name"], line)
+        if f["name"] in ("push", "push_back", "insert", "extend", "push_front"):
+            for v in vals[1:]:
+                for tag in self.cursor_tags(fr, v):
+                    st.ev("stash", f["name"], self.desc_tag(st, tag))
         self.I.unknown_callees[path] = self.I.unknown_callees.get(path, 0) + 1
         if dest_ty == "()":
             return [(st, UNIT)]
